@@ -97,7 +97,7 @@ impl Sut {
                 d.fast_recovery_ticks as i128, d.prev_bytes_sent_total as i128, d.prev_nak_total as i128,
                 d.traffic_baseline_set as i128, d.loss_ewma_last_ms as i128, d.loss_high_since_ms as i128,
                 d.backoff_ticks as i128, d.backoff_entry_loss_pm as i128, d.loss_uncongestive as i128,
-                d.uncongestive_ticks as i128,
+                d.uncongestive_ticks as i128, d.seeded as i128,
             ];
             let o = LinkObs { st: st_code(s.state), md: md_code(s.climb_mode), tgt: s.target_bps, ewma: s.rtt_ewma_ms,
                               var: s.rtt_var_ms, min: s.rtt_min_ms, lpm: s.loss_permille, lewma: s.loss_ewma,
